@@ -378,7 +378,8 @@ fn cases(tier: Tier) -> Vec<Case> {
                 }
                 for source in sources {
                     for variant in &variants {
-                        let targets: &[&str] = if tier == Tier::Thorough && *variant == "verbatim" { &["dest", "sender"] } else { &["dest"] };
+                        // reflection to the original sender: verbatim only; in the quick tier for handshake datagrams only
+                        let targets: &[&str] = if *variant == "verbatim" && (tier == Tier::Thorough || kind != "sealed") { &["dest", "sender"] } else { &["dest"] };
                         for target in targets {
                             v.push(Case { scenario: sc.to_string(), k, offset, source: source.to_string(), variant: variant.to_string(), target: target.to_string(), second: None });
                         }
